@@ -261,3 +261,18 @@ PROPERTIES["C17"] = {"run": _sched(_c17_monitor, extra=_c17_extra, rt=True), "as
     "time is an integer number of clock ticks: rt_factor*time_resolution is a whole number of ticks and the virtual clock only takes the values of timer deadlines; the float arithmetic of perf_counter is not modelled",
     "real timers are replaced by a virtual clock owned by the controlled event loop (scheduler.perf_counter is patched to it)",
     "simulators always answer"]}
+
+
+def _c14(o, driver, rng):
+    import fault_enum
+    res = fault_enum.run_suite(driver, rng, o.tier)
+    o.suites.append(res)
+    o.violations.extend(res["violations"])
+    o.monitor_stats["fault_cases"] = res["cases"]
+    o.monitor_stats["impl_monitor_violations"] = len(res["violations"])
+
+
+PROPERTIES["C14"] = {"run": _c14, "assumptions": [
+    "the theorems cover the try/except/finally control flow of World.run and the shutdown loop under the hypothesis that stop() of every simulator returns",
+    "processes, sockets, the stop timeout, promptness and pending asyncio tasks are decided by the fault enumeration on the real code only",
+    "fault kinds: exception in a handler (local and remote) and process exit (remote); a silently hanging simulator is outside the property ('simulators that fail')"]}
